@@ -146,7 +146,7 @@ class State:
     self.evals += 1
     h = None
     if outcome.get('nt'):
-      h = spec_hash(spec)
+      h = outcome.get('key') or spec_hash(spec)
       if h not in self.nt:
         self.nt.add(h)
         if len(self.samples) < 3:
